@@ -1322,7 +1322,7 @@ PROPS["C12"] = {
             "(with and without a trailing newline), end at top level, a ';' ')' or ',' removed, an unknown function, a row with one entry too many / too few, a literal of 2^63, bits(65,..), two statements on a line, "
             "a duplicated header name, a header without line break, a duplicated declare name; the edit is invalid BY CONSTRUCTION, so the oracle is the generator's own verdict (a third opinion next to model and implementation); "
             "non-trivial = an edited text; distinct = hash of the text's verdict and error kind",
-    "proved": "see props/C12.v: every accepted text is derivable in the grammar Grammar.v; being in the grammar excludes each malformation (blocks matched, no end at top level, row width exact, calls well-formed, "
+    "proved": "see props/C12.v: the parser accepts EXACTLY the grammar (accepted <-> G_program and distinct declared names, for every string; GrammarComplete.v); every accepted text is derivable in the grammar Grammar.v; being in the grammar excludes each malformation (blocks matched, no end at top level, row width exact, calls well-formed, "
               "literals fit, bits <= 64); header / declare names distinct (wf_parsed); header followed by a line break",
     "validated_only": "that the crate's parser accepts exactly what the model parser accepts (verdict and error kind compared on every case)",
     "assumptions": ["Lexer.v / Parser.v model the crate's lexer and parser (checked by this run)"],
